@@ -37,7 +37,7 @@ Definition runN (behs : list beh) (sched : list gchoice) : gst := grun P C sched
    narrowed `except`, a send before the exception test ... make this evaluate to false.
    (The evaluation itself - vm_compute, about 20 s - lives in Proofs/SubprocCheck.v, which
    `make` rebuilds whenever Gen/Subproc.v changes.) *)
-Theorem C17_programs_check : check_all P C true false = true.
+Theorem C17_programs_check : check_all P C true true = true.
 Proof. exact programs_check. Qed.
 Print Assumptions C17_programs_check.
 
@@ -71,13 +71,13 @@ Print Assumptions C17_single_faithful_refuted.
    without reporting, an exception that does not pretend to be the callee's), and no pipe
    end, reader callback, running or un-reaped child is left. *)
 Theorem C17_single_spec_partial : forall b sched,
-  returns_envelope b = false -> cancelled_at_wait (run1 b sched) = false ->
+  returns_envelope b = false ->
   p_done (run1 b sched) = true -> spec_ok b (run1 b sched) = true.
 Proof.
-  intros b sched He Hc Hd. apply (done_spec P C true false C17_programs_check); auto.
+  intros b sched He Hd. apply (done_spec P C true true C17_programs_check); auto.
   - apply lrun_reach. constructor.
   - now rewrite andb_false_r.
-  - now rewrite Hc.
+  - now rewrite andb_false_r.
 Qed.
 Print Assumptions C17_single_spec_partial.
 
@@ -91,7 +91,7 @@ Theorem C17_single_faithful_partial : forall b sched f,
   | _ => if b_isa b StopIterationC then f = FRaise (XCls RuntimeErrorC) else f = FRaise XCallee
   end.
 Proof.
-  intros b sched f. apply (faithful_exact P C true false programs_check). apply lrun_reach. constructor.
+  intros b sched f. apply (faithful_exact P C true true programs_check). apply lrun_reach. constructor.
 Qed.
 Print Assumptions C17_single_faithful_partial.
 
@@ -102,7 +102,7 @@ Theorem C17_single_child_death_outcome : forall b sched f,
   p_stat (ps (run1 b sched)) = PSDone f -> is_cancel f = false ->
   model_final b f = true \/ (c_killed (cs (run1 b sched)) = true /\ is_cpe f = true).
 Proof.
-  intros b sched f. apply (death_outcome P C true false programs_check). apply lrun_reach. constructor.
+  intros b sched f. apply (death_outcome P C true true programs_check). apply lrun_reach. constructor.
 Qed.
 Print Assumptions C17_single_child_death_outcome.
 
@@ -115,8 +115,8 @@ Theorem C17_death_report_uniform : forall b sched f b' sched' f',
   same_report f f' = true /\ report_uniform f b' (c_killed (cs (run1 b' sched'))) f' = true.
 Proof.
   intros b sched f b' sched' f' Hf Hf' Hd Hd'.
-  rewrite (died_is_cpe P C true false C17_programs_check b _ f (lrun_reach P C b sched linit (lr_init P C b)) Hf Hd).
-  rewrite (died_is_cpe P C true false C17_programs_check b' _ f' (lrun_reach P C b' sched' linit (lr_init P C b')) Hf' Hd') in *.
+  rewrite (died_is_cpe P C true true C17_programs_check b _ f (lrun_reach P C b sched linit (lr_init P C b)) Hf Hd).
+  rewrite (died_is_cpe P C true true C17_programs_check b' _ f' (lrun_reach P C b' sched' linit (lr_init P C b')) Hf' Hd') in *.
   split; [reflexivity|]. unfold report_uniform. now rewrite orb_true_r.
 Qed.
 Print Assumptions C17_death_report_uniform.
@@ -131,44 +131,25 @@ Theorem C17_single_terminates_all_crash_points : forall b sched,
 Proof.
   intros b sched. pose proof (lrun_reach P C b sched linit (lr_init P C b)) as Hr.
   split; [|split].
-  - apply (effective_bounded P C true false C17_programs_check). constructor.
-  - apply (never_blocked_forever P C true false C17_programs_check). exact Hr.
-  - exact (finish_after P C true false programs_check b sched).
+  - apply (effective_bounded P C true true C17_programs_check). constructor.
+  - apply (never_blocked_forever P C true true C17_programs_check). exact Hr.
+  - exact (finish_after P C true true programs_check b sched).
 Qed.
 Print Assumptions C17_single_terminates_all_crash_points.
 
-(* FULL STATEMENT (refuted, kept visible): no descriptor, reader callback, live or un-reaped
-   child on ANY exit path:
-     forall b sched, p_done (run1 b sched) = true -> clean_exit (run1 b sched) = true.
-   Witness (K5): the awaiting task is CANCELLED (task.cancel(), asyncio.wait_for timeout) while
-   it is suspended in `await event.wait()`: CancelledError leaves calculate_in_subprocess at
-   once - the read end stays open, the reader callback stays registered with the loop, the
-   child keeps running and is never joined. *)
-Theorem C17_no_fd_no_zombie_on_exit_refuted :
-  exists b sched, let s := run1 b sched in
-    p_stat (ps s) = PSDone (FRaise (XCls CancelledErrorC)) /\ clean_exit s = false /\
-    e_rx (p_ends (ps s)) = true /\ p_reader (ps s) = true /\ c_running s = true /\ p_joined (ps s) = false.
-Proof.
-  exists (mk_beh COk [] false true false false false).
-  exists (flat_map (fun _ => [LParent]) (seq 0 12) ++ [LChild; LCancel]).
-  vm_compute. repeat split; reflexivity.
-Qed.
-Print Assumptions C17_no_fd_no_zombie_on_exit_refuted.
-
-(* ... on every exit path (return or raise, in region K1, when unpickling the received message
-   raises in the parent, when the coroutine is cancelled before it has started) unless the
-   await is cancelled at its suspension point - the narrowest guard: every other schedule,
-   with kills of the child anywhere, is covered *)
-Theorem C17_no_fd_no_zombie_on_exit_partial : forall b sched,
-  cancelled_at_wait (run1 b sched) = false ->
+(* no descriptor, reader callback, live or un-reaped child on ANY exit path: return or raise, in
+   region K1, when unpickling the received message raises in the parent (former K2), when the
+   awaiting task is cancelled - before it starts, or at its suspension point (former K5: the
+   handler around the wait removes the reader, kills and joins the child, closes the read end) *)
+Theorem C17_no_fd_no_zombie_on_exit : forall b sched,
   p_done (run1 b sched) = true -> clean_exit (run1 b sched) = true.
 Proof.
-  intros b sched Hc Hd. apply (done_clean P C true false C17_programs_check b); auto.
+  intros b sched Hd. apply (done_clean P C true true C17_programs_check b); auto.
   - apply lrun_reach. constructor.
   - now rewrite andb_false_r.
-  - now rewrite Hc.
+  - now rewrite andb_false_r.
 Qed.
-Print Assumptions C17_no_fd_no_zombie_on_exit_partial.
+Print Assumptions C17_no_fd_no_zombie_on_exit.
 
 (* the outcome itself needs no such guard: also when unpickling raises, the awaiting task gets
    an exception that does not pretend to be the callee's outcome *)
@@ -176,7 +157,7 @@ Theorem C17_single_outcome_partial : forall b sched f,
   returns_envelope b = false -> p_stat (ps (run1 b sched)) = PSDone f ->
   outcome_ok b (c_killed (cs (run1 b sched))) f = true.
 Proof.
-  intros b sched f He Hf. apply (done_outcome P C true false C17_programs_check); auto.
+  intros b sched f He Hf. apply (done_outcome P C true true C17_programs_check); auto.
   apply lrun_reach. constructor.
 Qed.
 Print Assumptions C17_single_outcome_partial.
@@ -202,7 +183,7 @@ Print Assumptions C17_no_fd_no_zombie_on_exit_if_protected.
 Theorem C17_single_nonblocking : forall b sched,
   sync_blocked P C b (run1 b sched) = true -> callee_pending C (run1 b sched) = false.
 Proof.
-  intros b sched. apply (nonblocking P C true false C17_programs_check). apply lrun_reach. constructor.
+  intros b sched. apply (nonblocking P C true true C17_programs_check). apply lrun_reach. constructor.
 Qed.
 Print Assumptions C17_single_nonblocking.
 
@@ -218,10 +199,10 @@ Theorem C17_noninterference_N : forall behs sched i v,
 Proof.
   intros behs sched i v Hv.
   pose proof (grun_reach P C behs sched (ginit behs) (gr_init P C behs)) as Hr.
-  destruct (projection P C true false C17_programs_check behs _ i v Hr Hv) as [Hb Hl].
+  destruct (projection P C true true C17_programs_check behs _ i v Hr Hv) as [Hb Hl].
   split; [|split].
   - exact Hb.
-  - apply (no_foreign_writer P C true false C17_programs_check behs). exact Hr.
+  - apply (no_foreign_writer P C true true C17_programs_check behs). exact Hr.
   - destruct (reach_lrun P C (g_beh v) (g_loc v) Hl) as [ls Hls]. exists ls. now rewrite <- Hls.
 Qed.
 Print Assumptions C17_noninterference_N.
@@ -230,14 +211,14 @@ Print Assumptions C17_noninterference_N.
    specification relative to the i-th callee, whatever the others do *)
 Theorem C17_own_result_N_partial : forall behs sched i v b,
   nth_error (g_invs (runN behs sched)) i = Some v -> nth_error behs i = Some b ->
-  returns_envelope b = false -> cancelled_at_wait (g_loc v) = false ->
+  returns_envelope b = false ->
   p_done (g_loc v) = true -> spec_ok b (g_loc v) = true.
 Proof.
-  intros behs sched i v b Hv Hb He Hc Hd.
+  intros behs sched i v b Hv Hb He Hd.
   pose proof (grun_reach P C behs sched (ginit behs) (gr_init P C behs)) as Hr.
-  destruct (projection P C true false C17_programs_check behs _ i v Hr Hv) as [Hb' Hl].
+  destruct (projection P C true true C17_programs_check behs _ i v Hr Hv) as [Hb' Hl].
   rewrite Hb in Hb'. inversion Hb'; subst b.
-  apply (done_spec P C true false C17_programs_check); auto; [now rewrite andb_false_r | now rewrite Hc].
+  apply (done_spec P C true true C17_programs_check); auto; now rewrite andb_false_r.
 Qed.
 Print Assumptions C17_own_result_N_partial.
 
@@ -251,26 +232,25 @@ Proof.
   intros behs sched.
   pose proof (grun_reach P C behs sched (ginit behs) (gr_init P C behs)) as Hr.
   split; [|split].
-  - rewrite <- (gmeasure_init P C). apply (geffective_bounded P C true false C17_programs_check behs). constructor.
-  - apply (never_blocked_forever_global P C true false C17_programs_check behs). exact Hr.
-  - destruct (can_finish_global P C true false C17_programs_check behs _ _ Hr (le_n _)) as [ext [_ Hd]].
+  - rewrite <- (gmeasure_init P C). apply (geffective_bounded P C true true C17_programs_check behs). constructor.
+  - apply (never_blocked_forever_global P C true true C17_programs_check behs). exact Hr.
+  - destruct (can_finish_global P C true true C17_programs_check behs _ _ Hr (le_n _)) as [ext [_ Hd]].
     exists ext. unfold runN, grun in *. now rewrite fold_left_app.
 Qed.
 Print Assumptions C17_terminates_N.
 
 (* when all N awaits have returned the parent process holds no pipe end or reader of any
    invocation and no child is running or un-reaped *)
-Theorem C17_no_fd_no_zombie_N_partial : forall behs sched,
-  forallb (fun v => negb (cancelled_at_wait (g_loc v))) (g_invs (runN behs sched)) = true ->
+Theorem C17_no_fd_no_zombie_N : forall behs sched,
   g_all_done (runN behs sched) = true ->
   g_parent_fds (runN behs sched) = 0 /\ g_unreaped (runN behs sched) = 0.
 Proof.
-  intros behs sched Hc Hd. apply (all_done_clean P C true false C17_programs_check behs); auto.
+  intros behs sched Hd. apply (all_done_clean P C true true C17_programs_check behs); auto.
   - apply grun_reach. constructor.
   - intros b Hb. now rewrite andb_false_r.
-  - intros v Hv. rewrite forallb_forall in Hc. specialize (Hc v Hv). apply negb_true_iff in Hc. now rewrite Hc.
+  - intros v Hv. now rewrite andb_false_r.
 Qed.
-Print Assumptions C17_no_fd_no_zombie_N_partial.
+Print Assumptions C17_no_fd_no_zombie_N.
 
 (* the coroutine that holds the loop thread is never stuck in recv/join while its callee is
    still computing (other tasks are delayed at most by a child that is sending or exiting) *)
@@ -278,7 +258,7 @@ Theorem C17_loop_thread_N : forall behs sched k v,
   g_running (runN behs sched) = Some k -> nth_error (g_invs (runN behs sched)) k = Some v ->
   gstep P C (GParent k) (runN behs sched) = None -> callee_pending C (g_loc v) = false.
 Proof.
-  intros behs sched k v. apply (holder_not_computing P C true false C17_programs_check behs).
+  intros behs sched k v. apply (holder_not_computing P C true true C17_programs_check behs).
   apply grun_reach. constructor.
 Qed.
 Print Assumptions C17_loop_thread_N.
@@ -313,13 +293,12 @@ Print Assumptions C17_kw_partial.
 
 (* and with a collision the invocation still terminates and leaves nothing behind *)
 Theorem C17_kw_collision_clean : forall k b sched,
-  cancelled_at_wait (run1k k b sched) = false ->
   p_done (run1k k b sched) = true -> clean_exit (run1k k b sched) = true.
 Proof.
   intros k b sched. unfold run1k, lrun_kw, beh_kw. destruct k.
-  - now apply C17_no_fd_no_zombie_on_exit_partial.
-  - destruct (kw_parent_safe Gen.Subproc.kw_flags); [now apply C17_no_fd_no_zombie_on_exit_partial | reflexivity].
-  - destruct (kw_child_safe Gen.Subproc.kw_flags); now apply C17_no_fd_no_zombie_on_exit_partial.
+  - now apply C17_no_fd_no_zombie_on_exit.
+  - destruct (kw_parent_safe Gen.Subproc.kw_flags); [now apply C17_no_fd_no_zombie_on_exit | reflexivity].
+  - destruct (kw_child_safe Gen.Subproc.kw_flags); now apply C17_no_fd_no_zombie_on_exit.
 Qed.
 Print Assumptions C17_kw_collision_clean.
 
@@ -368,7 +347,7 @@ Example ex_cancel_protected :
   let s' := lrun protected_parent_prog C b_ok cancel_after_sent linit in
   p_stat (ps s) = PSDone (FRaise (XCls CancelledErrorC)) /\ clean_exit s = true /\ c_killed (cs s) = true /\
   p_stat (ps s') = PSDone (FRaise (XCls CancelledErrorC)) /\ clean_exit s' = true /\
-  clean_exit (run1 b_ok cancel_in_callee) = false /\ clean_exit (run1 b_ok cancel_after_sent) = false /\
+  clean_exit (run1 b_ok cancel_in_callee) = true /\ clean_exit (run1 b_ok cancel_after_sent) = true /\
   clean_exit (run1 b_ok [LCancel]) = true /\ cancelled_at_wait (run1 b_ok [LCancel]) = false.
 Proof. vm_compute. repeat split; reflexivity. Qed.
 
